@@ -207,6 +207,19 @@ def build_pred(df, p):
     raise ValueError(p)
 
 
+def _pred_columns(p):
+    k = p[0]
+    if k in ("and", "or"):
+        return _pred_columns(p[1]) | _pred_columns(p[2])
+    if k == "not":
+        return _pred_columns(p[1])
+    if k == "colcmp":
+        return {p[2], p[3]}
+    if k == "redcmp":
+        return {p[2]}
+    return {p[1]}
+
+
 def _lit(v):
     if isinstance(v, dict) and "ts" in v:
         return pd.Timestamp(v["ts"])
@@ -965,7 +978,13 @@ class Generator:
         if depth < 2 and rng.random() < 0.35:
             k = rng.choice(["and", "or", "not"])
             if k == "not":
-                return ["not", self.draw_pred(m, depth + 1)]
+                sub = self.draw_pred(m, depth + 1)
+                # negated comparisons on string data: pandas 3 'str' (NaN) and dask's converted 'string[pyarrow]' (pd.NA)
+                # disagree on null != x, and the optimizer moves filters across the conversion (a C03-type defect,
+                # not claimed): negation is only generated over predicates without string / categorical atoms
+                if any(cols.get(c_) in ("str", "cat", "obj") for c_ in _pred_columns(sub)):
+                    return sub
+                return ["not", sub]
             return [k, self.draw_pred(m, depth + 1), self.draw_pred(m, depth + 1)]
         c = rng.choice(sorted(cols))
         kind = cols[c]
@@ -983,7 +1002,7 @@ class Generator:
         if kind in ("int", "float", "dt"):
             return [rng.choice(["gt", "ge", "lt", "le", "eq", "ne"]), c, self.draw_lit(kind)]
         if kind in ("str", "cat"):
-            return [rng.choice(["eq", "ne"]), c, self.draw_lit(kind)]
+            return ["eq", c, self.draw_lit(kind)]
         if kind == "bool":
             return ["eq", c, self.draw_lit("bool")]
         return ["notna", c]
